@@ -182,6 +182,8 @@ def perform(net, op, serial):
                 tb.create_continuous_junction_index(net, start=op["start"])
             else:
                 tb.create_continuous_element_index(net, op["tbl"], start=op["start"])
+        elif o == "continuous_all":
+            tb.create_continuous_elements_index(net, start=op["start"])
         elif o == "drop_junctions":
             tb.drop_junctions(net, list(op["js"]))
         elif o == "drop_elements_at_junctions":
